@@ -376,9 +376,13 @@ def sc_lz(rng):
 
 
 def sc_bpe(rng):
-    kw = {"max_vocab_size": int(rng.choice([5, 20, 100])), "return_type": str(rng.choice(["matrix", "sequences", "tokens"]))}
-    D = strings(rng)
-    pool = [freeze(strings(rng, n=3)), freeze(D[:2]), freeze(D[::-1])]
+    # NOT OWNED (D14): contract_pair copies the tail of a string with a loop variable that may be unset; strings that
+    # contract to very few codes pick up uninitialised memory as a "code" (seen: column label 94170064223248), which
+    # makes two fits differ.  Scenarios therefore use strings of >= 8 characters and few merges.
+    kw = {"max_vocab_size": int(rng.choice([3, 5, 8])), "return_type": str(rng.choice(["matrix", "sequences", "tokens"]))}
+    mk = lambda n=None: [x + "abcab ab" for x in strings(rng, n)]
+    D = mk()
+    pool = [freeze(mk(3)), freeze(D[:2]), freeze(D[::-1])]
     return Scenario(V.BytePairEncodingVectorizer, "BytePairEncodingVectorizer(%r)" % kw, freeze(kw), freeze((D, {})),
                     [(lambda f=f: (f(), {})) for f in pool])
 
@@ -664,6 +668,21 @@ def public_model(est):
     return out
 
 
+def degenerate_svd(est):
+    """SVD based models (embedding_ = U * S): when a requested component has a (relatively) vanishing singular value,
+    or two singular values coincide, the singular vectors are decided by rounding noise and 'the same model to 1e-9'
+    is not a meaningful claim; such fits are counted, not compared."""
+    E = getattr(est, "embedding_", None)
+    if not isinstance(E, np.ndarray) or E.ndim != 2 or min(E.shape) == 0 or not np.all(np.isfinite(E)):
+        return False
+    sv = np.linalg.svd(E, compute_uv=False)
+    k = min(getattr(est, "n_components", len(sv)), len(sv))
+    sv = sv[:k]
+    if sv[0] == 0 or sv[-1] < 1e-6 * sv[0]:
+        return True
+    return bool(np.any(np.abs(np.diff(sv)) < 1e-6 * sv[0]))
+
+
 def run_job(name, seed, tmpdir):
     rng = np.random.RandomState(zlib.crc32(("%s/%d" % (name, seed)).encode()) % (2 ** 31))
     sc = REGISTRY[name](rng)
@@ -745,6 +764,29 @@ def run_job(name, seed, tmpdir):
         if k2 not in params and id(v) in caller and v is caller[id(v)]:
             res["aliases"].append(k2)
     model0 = public_model(est) if sc.compare_attrs else {}
+    try:
+        clone0 = copy.deepcopy(est)
+    except Exception:
+        clone0 = None
+    # ---- 5. two fits (same integer random_state where there is one) give the same model
+    if sc.compare_attrs and sc.claim_seed:
+        fresh = sc.cls(**fix_cachedir(sc.params(), cachedir))
+        Xf, kwf = sc.fit_data()
+        r, _ = call(fresh.fit_transform if use_ft else fresh.fit, Xf, **kwf)
+        if isinstance(r, Exception):
+            res["error"] = "second fit raised %s" % type(r).__name__
+            return res
+        model1 = public_model(fresh)
+        res["checks"]["attrs_compared"] = len(model1)
+        if degenerate_svd(est):
+            res["checks"]["degenerate_svd"] = 1       # more components than the rank: the model is not determined
+        else:
+            for k2 in model0:
+                if k2 not in model1 or not same(model0[k2], model1[k2]):
+                    viol.append({"kind": "two-fits-differ", "detail": "fitted attribute %s differs between two fits%s: %s vs %s"
+                                 % (k2, " with random_state=%r" % params.get("random_state") if sc.seeded else "",
+                                    brief(model0[k2]), brief(model1.get(k2, ("none",))))})
+                    break
     hist = []
     if sc.has_transform:
         pool = [f() for f in sc.pool]
@@ -768,30 +810,27 @@ def run_job(name, seed, tmpdir):
                 Xi, kwi = pool[i]
             out = watched_call("%s call %d (input #%d)" % (tr_name, step + 1, i), getattr(est, tr_name), Xi, kwi)
             hist.append((step, i, canon(out)))
-        # ---- 4. single-call references on freshly built estimators
+        # ---- 4. single-call references: one transform on an untouched deep copy of the estimator taken right after fit
+        # (a freshly constructed and fitted estimator when the object cannot be copied and its fit is deterministic)
         refs = {}
         for i in sorted({i for _, i, _ in hist}):
-            fresh = sc.cls(**fix_cachedir(sc.params(), cachedir))
-            Xf, kwf = sc.fit_data()
-            r, _ = call(fresh.fit_transform if use_ft else fresh.fit, Xf, **kwf)
-            if isinstance(r, Exception):
-                res["error"] = "second fit raised %s" % type(r).__name__
-                return res
-            if i == min(refs, default=i) and sc.compare_attrs:
-                model1 = public_model(fresh)
-                res["checks"]["attrs_compared"] = len(model1)
-                if sc.claim_seed:
-                    for k2 in model0:
-                        if k2 not in model1 or not same(model0[k2], model1[k2]):
-                            viol.append({"kind": "two-fits-differ", "detail": "fitted attribute %s differs between two fits%s: %s vs %s"
-                                         % (k2, " with random_state=%r" % params.get("random_state") if sc.seeded else "",
-                                            brief(model0[k2]), brief(model1.get(k2, ("none",))))})
-                            break
+            if clone0 is not None:
+                ref_est = copy.deepcopy(clone0)
+            elif sc.claim_seed:
+                ref_est = sc.cls(**fix_cachedir(sc.params(), cachedir))
+                Xf, kwf = sc.fit_data()
+                r, _ = call(ref_est.fit_transform if use_ft else ref_est.fit, Xf, **kwf)
+                if isinstance(r, Exception):
+                    res["error"] = "second fit raised %s" % type(r).__name__
+                    return res
+            else:
+                break
             Xi, kwi = sc.pool[i]()
-            o, _ = call(getattr(fresh, tr_name), Xi, **kwi)
+            o, _ = call(getattr(ref_est, tr_name), Xi, **kwi)
             refs[i] = canon(o)
+        res["checks"]["reference"] = "deepcopy" if clone0 is not None else "fresh-fit"
         for step, i, c in hist:
-            if not same(c, refs[i]):
+            if i in refs and not same(c, refs[i]):
                 viol.append({"kind": "history-differs-from-single-call",
                              "detail": "transform call %d of the history %s (input #%d) returned %s, a single call on a fresh fit returns %s"
                                        % (step + 1, [j for _, j, _ in hist], i, brief(c), brief(refs[i]))})
